@@ -285,7 +285,11 @@ func mathPool() []float64 {
 		math.Pi, math.E, 1e22, 123456.789, math.Inf(1), math.Inf(-1), math.NaN(),
 		// huge and tiny magnitudes (an intermediate product may overflow or underflow where the result does not)
 		2e306, -2e306, 1e307, 3e307, 5e307, 1e308, -1e308, 1.7e308, 9.9e307, 1.5e308, 1e200, -1e200, 1e154, 1.4e154,
-		1e-323, 1e-310, -1e-310, 3e-308, 1e-200, 1e-154, 4e-324 * 37, 2.5e-320}
+		1e-323, 1e-310, -1e-310, 3e-308, 1e-200, 1e-154, 4e-324 * 37, 2.5e-320,
+		// neighbours of 1, of the int32/int64 conversion limits and of 2^51 (last binade with a half), the topmost
+		// subnormal binade (frexp gives exponent -1023 there)
+		math.Nextafter(1, 0), math.Nextafter(1, 2), 1<<31 - 0.5, 1<<31 + 0.5, -(1<<31 + 0.5), 1<<32 + 0.5, 1<<63 - 1024, -(1 << 63),
+		-(1<<63 + 2048), 0x1p-1024, 0x1.8p-1024, -0x1.4p-1030, 1<<51 + 0.5, -(1<<51 + 0.5)}
 	for _, k := range []int{1, 10, 52, 53, 54, 63, 64, 1023, -1, -10, -1022, -1023, -1074} {
 		p = append(p, math.Ldexp(1, k), -math.Ldexp(1, k), math.Ldexp(3, k-1))
 	}
@@ -502,6 +506,23 @@ func genMath(w *lib.Writer, r *lib.Rand, tier string) {
 			runMath(w, mIn(fn, x))
 		}
 	}
+	genMathBoundaries(w, r, runMath)
+	genMathSweeps(w, r.Fork())
+}
+
+func numArgs(xs []float64) []lua.LValue {
+	args := make([]lua.LValue, len(xs))
+	for i, x := range xs {
+		args[i] = lua.LNumber(x)
+	}
+	return args
+}
+
+func lnum(v lua.LValue) float64 {
+	if n, ok := v.(lua.LNumber); ok {
+		return float64(n)
+	}
+	return math.NaN()
 }
 
 // powExact runs math.pow where x^y is an exactly representable number that C's pow returns exactly
